@@ -178,6 +178,11 @@ func runC16(r *Rng, n int, tier string) {
 				}
 			}
 		}
+		if i%3 == 2 && len(c.p.Queries) > 0 {
+			// a query named like something the generated plumbing declares: whatever is done about the clash, an
+			// emit option does not change the embedded SQL or the method names
+			c.p.Queries[r.Intn(len(c.p.Queries))].Name = r.Pick([]string{"Close", "exec", "query", "queryRow", "tx", "WithTx", "Prepare", "New", "db"})
+		}
 		if r.Chance(50) {
 			c.globalOverrides = append(c.globalOverrides, `{"db_type":"text","go_type":"github.com/example/custom.Text"}`)
 			if r.Bool() {
